@@ -13,6 +13,22 @@ fn const_n<I: Inp>(i: &mut I) -> (u64, f64) {
     (n, dom_f64(i))
 }
 
+fn single_weighted<I: Inp>(i: &mut I, w: f64) {
+    let x = dom_f64(i);
+    let mut a = WeightedMean::new(); a.add(x, w);
+    let mut e = WeightedMeanWithError::new(); e.add(x, w);
+    if w > 0.0 {
+        vassert!(i, a.mean() == x && a.sum_weights() == w, "C16:single-weighted-mean-is-x");
+        vassert!(i, e.weighted_mean() == x && e.unweighted_mean() == x && e.sum_weights() == w && e.effective_len() == 1.0
+            && zero(e.population_variance()) && e.sample_variance().is_nan() && e.len() == 1, "C16:single-weighted-mean-with-error");
+    } else {
+        vassert!(i, a.mean().is_nan() && zero(a.sum_weights()), "C16:zero-total-weight-mean-is-nan");
+        vassert!(i, e.weighted_mean().is_nan() && e.variance_of_weighted_mean().is_nan() && e.error().is_nan()
+            && e.unweighted_mean() == x && e.len() == 1 && zero(e.sum_weights()), "C16:zero-total-weight-statistics-are-nan");
+    }
+    vcover!(i, x < 0.0, "negative-x");
+}
+
 harnesses! {
     /// every accessor of every estimator on the empty sample (constructed by new() and by default())
     fn empty [4] (i) {
@@ -79,24 +95,12 @@ harnesses! {
         vcover!(i, x < 0.0 && y > 0.0, "negative-x");
     }
 
-    /// weighted estimators with one observation / zero total weight
-    fn single_weighted [4] (i) {
-        let x = dom_f64(i);
-        let w = i.f64();
-        vassume!(i, w == 0.0 || (w >= 1e-6 && w <= 1e6));
-        let mut a = WeightedMean::new(); a.add(x, w);
-        let mut e = WeightedMeanWithError::new(); e.add(x, w);
-        if w > 0.0 {
-            vassert!(i, a.mean() == x && a.sum_weights() == w, "C16:single-weighted-mean-is-x");
-            vassert!(i, e.weighted_mean() == x && e.unweighted_mean() == x && e.sum_weights() == w && e.effective_len() == 1.0
-                && zero(e.population_variance()) && e.sample_variance().is_nan() && e.len() == 1, "C16:single-weighted-mean-with-error");
-        } else {
-            vassert!(i, a.mean().is_nan() && zero(a.sum_weights()), "C16:zero-total-weight-mean-is-nan");
-            vassert!(i, e.weighted_mean().is_nan() && e.variance_of_weighted_mean().is_nan() && e.error().is_nan()
-                && e.unweighted_mean() == x && e.len() == 1 && zero(e.sum_weights()), "C16:zero-total-weight-statistics-are-nan");
-        }
-        vcover!(i, w == 0.0, "zero-weight");
-    }
+    /// weighted estimators with one observation of weight 0 (total weight zero)
+    fn single_weighted_zero [4] (i) { single_weighted(i, 0.0); }
+    /// weighted estimators with one observation of weight 1, 0.25 or 3 (concrete weights keep the divider constant-folded)
+    fn single_weighted_one [4] (i) { single_weighted(i, 1.0); }
+    fn single_weighted_quarter [4] (i) { single_weighted(i, 0.25); }
+    fn single_weighted_three [4] (i) { single_weighted(i, 3.0); }
 
     /// sample statistics below their minimum sample size (sizes 2 and 3 built through the public API)
     fn small_sentinels [6] (i) {
